@@ -5,7 +5,8 @@ package blocktree
 // Harness of C16 (fork choice).  Case lines have the format of C15 (see ../C15/c15_test.go, injected alongside).
 // Every case is executed c16Reruns times on fresh trees so that Go's randomised iteration order of the leaf
 // sync.Map / of `counts` varies; all executions must agree.  Output per op: the best block after the op
-// (`a`: result code + best, `f`: best), `q`: GetHashByNumber on the best chain for every number in range.
+// (`a`: result code + best, `f`: best), `q`: GetHashByNumber on the best chain for every number in range and the
+// primaryAncestorCount of every leaf.
 
 import (
 	"errors"
@@ -40,7 +41,14 @@ func (e *c15Env) c16Step(op string) string {
 				return "e?"
 			}))
 		}
-		return "H" + strings.Join(hs, ",") + " b" + e.best()
+		// primaryAncestorCount of every leaf (the root must not be counted), leaves in definition order
+		var ps []string
+		for i, d := range e.c.defs {
+			if n, err := e.bt.leaves.load(d.hash); err == nil {
+				ps = append(ps, fmt.Sprintf("%d:%d", i, n.primaryAncestorCount(0)))
+			}
+		}
+		return "H" + strings.Join(hs, ",") + " P" + strings.Join(ps, ".") + " b" + e.best()
 	}
 	i, err := strconv.Atoi(op[1:])
 	if err != nil || i < 0 || i >= len(e.c.defs) {
